@@ -60,7 +60,7 @@ static bool perm_idx(int n) { return n % 3 != 0; }
 // ---- the cases: array statement / scalar program
 #define FORI for (int i = 0; i < n; ++i)
 #define FORJI for (int j = 0; j < m; ++j) for (int i = 0; i < n; ++i)
-static const int NCASE = 55;
+static const int NCASE = 58;
 static bool run_array(int c, Env& e) {
   aVector &X = e.X, &Y = e.Y, &Z = e.Z, &T = e.T; aMatrix &M = e.M, &N = e.N, &M2 = e.M2; adouble &s = e.s, &s2 = e.s2; double p = e.p; Vector& P = e.P; int n = e.n, m = e.m;
   switch (c) {
@@ -119,6 +119,10 @@ static bool run_array(int c, Env& e) {
   case 52: if (m < 2) return false; s2 = sum(diag_vector(M * N, -1)); break;
   case 53: if (n < 2) return false; s2 = sum(diag_vector(M * N, 1)); break;
   case 54: s2 = sum(diag_vector(M * N)); break;
+  // rank-2 conditional assignment: mask true across row boundaries, right-hand sides whose rows are not adjacent in traversal order
+  case 55: M2.where(M > N) = M(__, stride(n - 1, 0, -1)) * N; break;
+  case 56: M2.where(N > 0.3) = either_or(M * s, N(__, stride(n - 1, 0, -1))); break;
+  case 57: M2.where(M > N - 10.0) = M * N + spread<0>(X, m); break;
   default: return false;
   }
   return true;
@@ -185,6 +189,9 @@ static bool run_loop(int c, Ref& r) {
   case 52: if (m < 2) return false; s2 = 0.0; for (int j = 0; j < std::min(m - 1, n); ++j) s2 = s2 + M[(j + 1) * n + j] * N[(j + 1) * n + j]; break;
   case 53: if (n < 2) return false; s2 = 0.0; for (int j = 0; j < std::min(m, n - 1); ++j) s2 = s2 + M[j * n + j + 1] * N[j * n + j + 1]; break;
   case 54: s2 = 0.0; for (int j = 0; j < std::min(m, n); ++j) s2 = s2 + M[j * n + j] * N[j * n + j]; break;
+  case 55: FORJI if (M[j * n + i].value() > N[j * n + i].value()) M2[j * n + i] = M[j * n + (n - 1 - i)] * N[j * n + i]; break;
+  case 56: FORJI { if (N[j * n + i].value() > 0.3) M2[j * n + i] = M[j * n + i] * s; else M2[j * n + i] = N[j * n + (n - 1 - i)]; } break;
+  case 57: FORJI if (M[j * n + i].value() > N[j * n + i].value() - 10.0) M2[j * n + i] = M[j * n + i] * N[j * n + i] + x[i]; break;
   default: return false;
   }
   return true;
